@@ -224,7 +224,8 @@ def _unique_sheet_name(base: str, used: set[str]) -> str:
     """Return an Excel-safe, unique sheet name capped at 31 chars."""
     # Excel compares sheet names case-insensitively: track them case-folded
     cleaned = _sanitize_sheet_name(base)
-    candidate = cleaned[:31] or "Sheet"
+    # Excel refuses an apostrophe as first or last character; the cut can expose one
+    candidate = cleaned[:31].strip("'") or "Sheet"
     if candidate.casefold() not in used:
         used.add(candidate.casefold())
         return candidate
